@@ -27,6 +27,8 @@ import (
 	"os"
 	"strings"
 	"sync"
+	"sync/atomic"
+	"syscall"
 	"testing"
 	"time"
 )
@@ -49,13 +51,61 @@ type c20Subscriber struct {
 	events []c20Event
 	cond   *sync.Cond
 	err    error
+	paused, started bool
 }
 
 func c20Connect(addr string, read bool) (*c20Subscriber, error) {
 	return c20ConnectOpts(addr, read, !read)
 }
 
+var c20RegSeq int64
+
+// c20ConnectOpts connects a subscriber and returns once the daemon really delivers to it.  The daemon answers
+// "200 Connected" before it adds the connection to its list of subscribers; an event published in between is not
+// owed to this subscriber (it was not connected yet) - and on a loaded machine "in between" can be long.  So marker
+// events are published until one comes through, and only then does the scenario start.  A subscriber that is not
+// to read (read == false) stops reading after that marker.
 func c20ConnectOpts(addr string, read, smallBuffer bool) (*c20Subscriber, error) {
+	s, err := c20Dial(addr, smallBuffer)
+	if err != nil {
+		return nil, err
+	}
+	s.reads = read
+	if smallBuffer && !read {
+		// the subscriber that never reads takes nothing off the wire, not even a marker (reading a little through a
+		// 2 kB window and stopping leaves the connection trickling for minutes once it reads again).  If the daemon
+		// has not registered it when the filler starts it merely gets less filler; nothing is judged on that.
+		return s, nil
+	}
+	s.startReading()
+	reg := fmt.Sprintf("registered-%d", atomic.AddInt64(&c20RegSeq, 1))
+	isReg := func(e c20Event) bool { return e.Type == "Auth" && e.AuthType == "verif-sentinel" && e.Username == reg }
+	ok := false
+	for i := 0; i < 1500 && !ok; i++ {
+		verifPublishSentinel(reg)
+		ok = s.waitEvent(isReg, 10*time.Millisecond)
+	}
+	if !ok {
+		s.conn.Close()
+		return nil, fmt.Errorf("subscriber was connected but no marker event reached it within 15 s")
+	}
+	// forget the markers: the scenarios start from an empty list
+	s.mu.Lock()
+	s.paused = !read
+	kept := s.events[:0]
+	for _, e := range s.events {
+		if !isReg(e) {
+			kept = append(kept, e)
+		}
+	}
+	s.events = kept
+	s.mu.Unlock()
+	return s, nil
+}
+
+// c20Dial: TLS, CONNECT, status line.  Nothing is read after that (engine B uses it directly: its daemon is another
+// process, there is no marker to publish).
+func c20Dial(addr string, smallBuffer bool) (*c20Subscriber, error) {
 	raw, err := net.DialTimeout("tcp", addr, 10*time.Second)
 	if err != nil {
 		return nil, err
@@ -80,34 +130,45 @@ func c20ConnectOpts(addr string, read, smallBuffer bool) (*c20Subscriber, error)
 		return nil, fmt.Errorf("connect: %q %v", status, err)
 	}
 	br.ReadString('\n')
-	s := &c20Subscriber{conn: conn, raw: raw, br: br, reads: read}
+	s := &c20Subscriber{conn: conn, raw: raw, br: br}
 	s.cond = sync.NewCond(&s.mu)
-	if read {
-		s.startReading()
-	}
 	return s, nil
 }
 
+// startReading starts the reading goroutine, or lets a paused one read on.  A paused reader finishes the read it is
+// blocked in (at most one more event is taken off the wire) and then waits.
 func (s *c20Subscriber) startReading() {
-	{
-		go func() {
-			dec := json.NewDecoder(s.br)
-			for {
-				var ev c20Event
-				if err := dec.Decode(&ev); err != nil {
-					s.mu.Lock()
-					s.err = err
-					s.cond.Broadcast()
-					s.mu.Unlock()
-					return
-				}
+	s.mu.Lock()
+	s.paused = false
+	started := s.started
+	s.started = true
+	s.cond.Broadcast()
+	s.mu.Unlock()
+	if started {
+		return
+	}
+	go func() {
+		dec := json.NewDecoder(s.br)
+		for {
+			s.mu.Lock()
+			for s.paused {
+				s.cond.Wait()
+			}
+			s.mu.Unlock()
+			var ev c20Event
+			if err := dec.Decode(&ev); err != nil {
 				s.mu.Lock()
-				s.events = append(s.events, ev)
+				s.err = err
 				s.cond.Broadcast()
 				s.mu.Unlock()
+				return
 			}
-		}()
-	}
+			s.mu.Lock()
+			s.events = append(s.events, ev)
+			s.cond.Broadcast()
+			s.mu.Unlock()
+		}
+	}()
 }
 
 // waitCert waits until an event carrying exactly these certificate bytes has been received.
@@ -637,16 +698,25 @@ func TestVerifC20(t *testing.T) {
 			}
 			if tc, ok := s.raw.(*net.TCPConn); ok {
 				tc.SetReadBuffer(4 << 20) // it reads now, and at an ordinary pace
+				// (the window clamp was derived from the 2 kB buffer at connect time and does not follow SO_RCVBUF:
+				// without lifting it the backlog trickles in at one probe every 200 ms)
+				if rc, err := tc.SyscallConn(); err == nil {
+					rc.Control(func(fd uintptr) { syscall.SetsockoptInt(int(fd), syscall.IPPROTO_TCP, syscall.TCP_WINDOW_CLAMP, 4<<20) })
+				}
 			}
 			s.startReading()
-			last, same := -1, 0
-			for k := 0; k < 1200 && (same < 30 || last == 0); k++ { // until something has arrived and then nothing more for 1.5 s
-				time.Sleep(50 * time.Millisecond)
-				if n := s.received(); n == last {
-					same++
-				} else {
-					last, same = n, 0
-				}
+			// caught up = an event published now comes through (delivery to one subscriber is first-in first-out, so
+			// everything queued for it before has arrived by then); decided by that order, not by a pause in the flow -
+			// after minutes of a closed window the flow may take seconds to restart
+			caughtUp := false
+			for k := 0; k < 1200 && !caughtUp; k++ {
+				name := fmt.Sprintf("caught-up-%d-%d", nSubs, k)
+				verifPublishSentinel(name)
+				caughtUp = s.waitEvent(func(e c20Event) bool { return e.Type == "Auth" && e.AuthType == "verif-sentinel" && e.Username == name }, 50*time.Millisecond)
+			}
+			if !caughtUp {
+				rep.Inconc("the stalled subscriber did not catch up within 60 s of reading again (subscribers=%d): recovery not judged", nSubs)
+				continue
 			}
 			got := 0
 			s.mu.Lock()
